@@ -49,11 +49,12 @@ class Problem:
     """something that no longer checks. kind: 'property' (concrete failing input on the implementation),
     'correspondence' (model and implementation differ), 'proof' (theorem/build/audit), 'tie' (facts/harness build)"""
 
-    def __init__(self, kind, what, case=None, detail=""):
+    def __init__(self, kind, what, case=None, detail="", fails=None):
         self.kind = kind
         self.what = what
         self.case = case or []   # op lines (shrunk) or names
         self.detail = detail
+        self.fails = fails or []  # judge mode: every FAIL verdict of the case (a known finding must explain all of them)
 
     def to_json(self):
         return {"kind": self.kind, "what": self.what, "case": self.case, "detail": self.detail[:4000]}
@@ -337,7 +338,8 @@ class Check:
             self.problems.append(Problem(kind,
                                          "the recorded execution violates a rule/oracle of the property" if fails
                                          else "model store and implementation disagree on a recorded answer",
-                                         trace, f"event {first - a}: {ops[first]} | judge: {model[first]}"))
+                                         trace, f"event {first - a}: {ops[first]} | judge: {model[first]}",
+                                         fails=[model[i] for i in fails]))
 
     def _run_case(self, case_ops, hbin, exe, exe_args):
         rp = os.path.join(self.work, "shrink.replay")
@@ -606,6 +608,8 @@ def match_known(problem, known):
         if ok and m.get("detail") and not re.search(m["detail"], problem.detail):
             ok = False
         if ok and m.get("max_len") and len(problem.case) > m["max_len"]:
+            ok = False
+        if ok and m.get("all_fails") and not (problem.fails and all(re.search(m["all_fails"], f) for f in problem.fails)):
             ok = False
         if ok:
             return k
